@@ -1188,7 +1188,11 @@ func (c *Ctx) atom(v ssa.Value) (*Atom, bool) {
 			if _, ok := a.(*ssa.Const); ok {
 				a, b = b, a
 			}
-			return &Atom{Kind: AkCmp, Subj: c.path(a), Op: "==", K: c.path(b), V: v, Ctx: c}, neg
+			sa, sb := c.path(a), c.path(b)
+			if _, bConst := b.(*ssa.Const); !bConst {
+				sa, sb = eqOrder(sa, sb) // a == b and b == a are one atom
+			}
+			return &Atom{Kind: AkCmp, Subj: sa, Op: "==", K: sb, V: v, Ctx: c}, neg
 		case token.GTR:
 			// (m&K) > 0
 			if subj, k, ok := c.maskTest(x.X); ok {
@@ -1248,6 +1252,14 @@ func (c *Ctx) atom(v ssa.Value) (*Atom, bool) {
 		return &Atom{Kind: AkBool, Subj: c.path(v), V: v, Ctx: c}, false
 	}
 	return &Atom{Kind: AkOpaque, Subj: c.path(v), V: v, Ctx: c}, false
+}
+
+// eqOrder puts the two sides of an equality between non-constants into a canonical order.
+func eqOrder(a, b string) (string, string) {
+	if stripIDs(b) < stripIDs(a) {
+		return b, a
+	}
+	return a, b
 }
 
 // bitAtomS builds a bit atom whose subject is given as a path string.
@@ -1598,6 +1610,11 @@ func (c *Ctx) resultDNF(subject ssa.Value, nilTest, neg bool) (d DNF, ok bool) {
 		return nil, false
 	}
 	cal := rc.calleeOf(&call.Call)
+	if cal != nil && !nilTest {
+		if d, ok := rc.errIsAnyDNF(call, cal, neg); ok {
+			return d, true
+		}
+	}
 	if cal == nil || c.E.NoExpand[cal] || !c.E.simpleCallee(cal) || rc.calleeCtx(call, &call.Call) == nil {
 		return nil, false
 	}
@@ -1647,6 +1664,98 @@ func (c *Ctx) resultDNF(subject ssa.Value, nilTest, neg bool) (d DNF, ok bool) {
 	}
 	if d == nil {
 		d = dnfFalse()
+	}
+	return d, true
+}
+
+// errIsAnyDNF: a package-local helper `func(err error, targets ...error) bool` that returns true exactly when
+// errors.Is(err, t) holds for one of the targets (a loop over the targets with that single test) is the disjunction of
+// errors.Is atoms over what the call site puts into the targets slice.
+func (c *Ctx) errIsAnyDNF(call *ssa.Call, cal *ssa.Function, neg bool) (DNF, bool) {
+	if cal.Blocks == nil || fnPkg(cal) != c.E.P.Main || len(cal.Params) != 2 || cal.Signature.Results().Len() != 1 || !isBoolType(cal.Signature.Results().At(0).Type()) {
+		return nil, false
+	}
+	if !isErrorType(cal.Params[0].Type()) {
+		return nil, false
+	}
+	if _, isSlice := cal.Params[1].Type().Underlying().(*types.Slice); !isSlice {
+		return nil, false
+	}
+	// body shape: one call, errors.Is(param0, element of param1); `return true` only on its true branch; otherwise false
+	var isCall *ssa.Call
+	for _, b := range cal.Blocks {
+		for _, in := range b.Instrs {
+			switch x := in.(type) {
+			case *ssa.Call:
+				if bi, ok := x.Call.Value.(*ssa.Builtin); ok && bi.Name() == "len" {
+					continue
+				}
+				f := x.Call.StaticCallee()
+				if f == nil || fullName(f) != "errors.Is" || isCall != nil {
+					return nil, false
+				}
+				isCall = x
+			case *ssa.Store, *ssa.MapUpdate, *ssa.Send, *ssa.Go, *ssa.Defer, *ssa.Select:
+				return nil, false
+			}
+		}
+	}
+	if isCall == nil || isCall.Call.Args[0] != ssa.Value(cal.Params[0]) {
+		return nil, false
+	}
+	el, ok := isCall.Call.Args[1].(*ssa.UnOp)
+	if !ok {
+		return nil, false
+	}
+	ia, ok := el.X.(*ssa.IndexAddr)
+	if !ok || ia.X != ssa.Value(cal.Params[1]) {
+		return nil, false
+	}
+	for _, b := range cal.Blocks {
+		r, ok := b.Instrs[len(b.Instrs)-1].(*ssa.Return)
+		if !ok {
+			continue
+		}
+		k, isK := r.Results[0].(*ssa.Const)
+		if !isK || k.Value == nil || k.Value.Kind() != constant.Bool {
+			return nil, false
+		}
+		if constant.BoolVal(k.Value) {
+			// reached only through the true branch of the errors.Is test
+			okTrue := false
+			for _, p := range b.Preds {
+				if len(p.Instrs) > 0 {
+					if iff, ok := p.Instrs[len(p.Instrs)-1].(*ssa.If); ok && iff.Cond == ssa.Value(isCall) && p.Succs[0] == b && len(b.Preds) == 1 {
+						okTrue = true
+					}
+				}
+			}
+			if !okTrue {
+				return nil, false
+			}
+		}
+	}
+	k := c.calleeCtx(call, &call.Call)
+	if k == nil || len(call.Call.Args) != 2 {
+		return nil, false
+	}
+	tv, tc := c.resolve(call.Call.Args[1])
+	ins, complete := sliceInserted(tc, tv)
+	if !complete || len(ins) == 0 {
+		return nil, false
+	}
+	errPath := c.path(call.Call.Args[0])
+	d := dnfFalse()
+	if neg {
+		d = dnfTrue()
+	}
+	for _, in := range ins {
+		at := &Atom{Kind: AkErrIs, Subj: errPath, K: in.c.path(in.v), V: isCall, Ctx: k, Call: isCall, Callee: isCall.Call.StaticCallee()}
+		if neg {
+			d = d.andLit(Lit{A: at, Neg: true})
+		} else {
+			d = d.or(DNF{Conj{at.ID(): Lit{A: at}}})
+		}
 	}
 	return d, true
 }
